@@ -21,6 +21,7 @@ DECIDED = [
     "R-C12-DEADOWN: the only events that add to a dead-letter place are the overdue branch, the nack operation, reject of a message taken "
     "from dead and the Redis orphan-data branch",
     "R-C12-CLOCK: reschedule restarts the time-to-live clock, retry does not (shared with C06-RESET / C04-STEP)",
+    "R-C12-CLOCK (stored): Redis requeue overwrites payload and parameters with HSET (HSETNX would keep the old clock); R-C12-RETRIEVABLE (names): dead-letter list names carry the message's priority",
 ]
 NOT_DECIDED = ["the instant of the test relative to the expiry on a real clock"]
 ASSUMPTIONS = ["RabbitMQ dead-letters a nacked (requeue=False) message to the queue's DLX routing key (topology checked by C05-POLL)"]
